@@ -2,7 +2,7 @@
 CONSTANTS
   MaxH = 3
   MaxVer = 2
-  MaxOps = 5
+  MaxOps = 7
   InitH = 1
   Boundary = 2
   Genesis = FALSE
